@@ -1,2 +1,53 @@
-(* C03 — statements to come *)
-Require Import RV.Model.Client.
+(* C03 — the project's own client accepts every honest response and prints its midpoint.
+   Statements only. "Honest response" = the reply the server specification prescribes
+   (Spec/ServerGoals.v reply_bytes), which is what the server model provably emits (C09_drain) and
+   what an independent verifier accepts (C02): the two halves are proved to fit each other. *)
+Require Import RV.Model.Bytes RV.Gen.Tables RV.Model.Keys RV.Model.Client RV.Model.Server
+        RV.Spec.MerkleGoals RV.Spec.RefVerify RV.Spec.ServerGoals RV.Spec.ClientGoals.
+Require Import RV.Proofs.ClientComplete.
+Local Open Scope N_scope.
+
+(* the request the client builds is 1024 bytes (classic) / 1036 bytes (IETF: 1024 + 12 framing),
+   with or without SRV, and is a well-formed request for the server it names *)
+Theorem C03_request_shape :
+  forall H v nonce pko,
+    length nonce = spec_nonce_len v ->
+    (match pko with Some pk => length pk = 32%nat | None => True end) -> HashLen H ->
+    exists rq, make_request H v nonce pko = Ok rq
+      /\ length rq = (match v with Google => 1024 | RfcDraft13 => 1036 end)%nat
+      /\ wellformed (match pko with Some pk => calc_srv_value H pk | None => [] end) rq = Some (nonce, v).
+Proof. exact request_shape. Qed.
+Print Assumptions C03_request_shape.
+
+(* without a key the request is accepted by any server *)
+Theorem C03_request_any_server :
+  forall H v nonce srv, length nonce = spec_nonce_len v -> HashLen H ->
+    exists rq, make_request H v nonce None = Ok rq /\ wellformed srv rq = Some (nonce, v).
+Proof. exact request_any_server. Qed.
+Print Assumptions C03_request_any_server.
+
+(* for every honest reply — any batch of up to 64 requests, any position, either protocol, with or
+   without the pinned key — the client accepts (no panic), reports verified exactly when a key was
+   supplied, and prints exactly the signed midpoint converted from the protocol's unit, for every
+   midpoint chrono can represent (beyond year 9999) *)
+Theorem C03_complete :
+  forall H ed_pk ed_sign ed_verify ed_point,
+    HashLen H -> PkLen ed_pk -> SigLen ed_sign -> SigCorrect ed_pk ed_sign ed_verify ->
+    PointOk ed_pk ed_point ->
+    forall v srv lt ok now ds i pko,
+      let reqs := accepted srv v ds in
+      let r := nth i reqs req0 in
+      (i < length reqs)%nat -> (length reqs <= 64)%nat ->
+      fst now < two64 -> fst (time_of v (midp_of v now)) <= TS_MAX ->
+      (pko = None \/ pko = Some (ed_pk lt)) ->
+      client_handle H ed_verify ed_point v pko (req_nonce r) (req_dgram r)
+                    (reply_bytes H ed_pk ed_sign v lt ok now reqs i)
+      = Ok (mkout (match pko with Some _ => true | None => false end)
+                  (fst (time_of v (midp_of v now))) (snd (time_of v (midp_of v now)))
+                  (radi_of v) (N.of_nat i)).
+Proof. exact client_complete. Qed.
+Print Assumptions C03_complete.
+
+(* non-vacuity of the time bound: year 9999's last second is representable *)
+Example C03_year_9999 : 253402300799 <= TS_MAX.
+Proof. vm_compute. discriminate. Qed.
